@@ -107,9 +107,9 @@ func (i *Index) Encode() ([]byte, error) {
 	w.Write(binary.LittleEndian, i.DataBlock.Length)
 
 	for _, entry := range i.Entries {
-		w.Write(binary.LittleEndian, uint16(len(entry.StartKey)))
+		w.WriteLen16(binary.LittleEndian, len(entry.StartKey))
 		w.Write(binary.LittleEndian, []byte(entry.StartKey))
-		w.Write(binary.LittleEndian, uint16(len(entry.EndKey)))
+		w.WriteLen16(binary.LittleEndian, len(entry.EndKey))
 		w.Write(binary.LittleEndian, []byte(entry.EndKey))
 		w.Write(binary.LittleEndian, entry.DataHandle.Offset)
 		w.Write(binary.LittleEndian, entry.DataHandle.Length)
